@@ -227,7 +227,20 @@ fn replay(case: &Value) -> Vec<Violation> {
     match case["kind"].as_str().unwrap() {
         "round_trip" => {
             let r = ROUTES.into_iter().find(|r| *r == case["route"].as_str().unwrap()).unwrap();
-            check_round_trip(r, &jd(&case["x"])).into_iter().collect()
+            if let Some(a) = case.get("after") {
+                // a recorded history: the earlier serialisation (of another decimal) first
+                let prev = bd(&jd(a));
+                let _ = guard(|| route(r, &prev));
+            }
+            check_round_trip(r, &jd(&case["x"]))
+                .map(|mut v| {
+                    if let (Some(a), Some(o)) = (case.get("after"), v.case.as_object_mut()) {
+                        o.insert("after".into(), a.clone());
+                    }
+                    v
+                })
+                .into_iter()
+                .collect()
         }
         "json" => {
             let e = ENTRIES.into_iter().find(|e| *e == case["entry"].as_str().unwrap()).unwrap();
@@ -337,6 +350,31 @@ fn main() {
                 t.nontrivial += 1;
                 if let Some(v) = check_round_trip(r, &x) {
                     run.report(v);
+                }
+            }
+        }
+        t
+    });
+    // R2c: call histories of length two over weak-key pairs: serialise A, then round-trip B on the same thread
+    let wk = weak_key_pairs();
+    run.bound("R2c_weak_key_pairs", wk.len());
+    run.par("R2c round-trip histories over weak-key pairs", (wk.len() + 15) / 16, |blk| {
+        let mut t = Tally::default();
+        for (a, b) in wk[blk * 16..((blk + 1) * 16).min(wk.len())].iter() {
+            for (sa, sb) in [(0i128, 0i128), (7, 7), (3, -2)] {
+                let (xa, xb) = (Dec { n: a.clone(), s: sa }, Dec { n: b.clone(), s: sb });
+                let pa = bd(&xa);
+                t.states += 1;
+                for r in ROUTES {
+                    t.transitions += 2;
+                    t.nontrivial += 1;
+                    let _ = guard(|| route(r, &pa));
+                    if let Some(mut v) = check_round_trip(r, &xb) {
+                        if let Some(o) = v.case.as_object_mut() {
+                            o.insert("after".into(), json!(xa.show()));
+                        }
+                        run.report(v.attr("history", true));
+                    }
                 }
             }
         }
